@@ -259,7 +259,11 @@ class Gen:
         name = self.rng.choice(names)
         cols = self.tables[name]
         if r < 0.4:
-            return {"k": "create", "table": name, "cols": cols}           # duplicate table
+            if self.rng.random() < 0.5:
+                return {"k": "create", "table": name, "cols": cols}       # duplicate table
+            # duplicate table, other columns: nothing of the refused definition may stick
+            return {"k": "create", "table": name,
+                    "cols": [("o%d" % i, self.rng.choice(TYPES), 10) for i in range(self.rng.randint(1, len(cols) + 1))]}
         if r < 0.5:
             # a column name used twice (new or existing table name): refused before any change
             dup = [("d0", "int", 0), (self.rng.choice(["d1", "d0"]), "varchar", 10), ("d0", "int", 0)]
